@@ -311,7 +311,6 @@ Lemma flight_on_wire_complete sb hello :
      Forall (rok hello (negb (planned || is_flight sb))) (flat_map snd flight0) ->
      (forall b, 0 <= b < n -> covers b (flat_map snd flight0)) ->
      rrun planned (layout_of sb) (RS flight0 [] []) ops = Some (st', rs) ->
-     existsb is_err rs = false /\
      (forall b, 0 <= b < n -> covers b (all_ranges st')) /\
      (forall pn popped, In (RPkt pn popped) rs -> forall idx ping bs us, 0 <= idx ->
         match marshal sb hello planned idx popped ping bs us with
@@ -362,8 +361,8 @@ Proof.
     destruct (Ht _ Hod) as (H0 & H1 & _). cbn [fst snd] in *. pose proof (zlen_nonneg d).
     split; [unfold range_in; cbn [fst snd]; lia|discriminate].
   - intros planned flight0 n ops st' rs Hfl Hcov Hrun.
-    destruct (flight_stays_covered _ _ _ _ _ _ _ Hcov Hrun) as (He & Hc).
-    split; [assumption|]. split; [assumption|].
+    destruct (flight_stays_covered _ _ _ _ _ _ _ Hcov Hrun) as (_ & Hc).
+    split; [assumption|].
     intros pn popped Hin idx ping bs us Hidx.
     assert (Hst : st_rok hello (negb (planned || is_flight sb)) (RS flight0 [] [])).
     { unfold st_rok, all_ranges. cbn [rOut rQueue rAcked]. rewrite !app_nil_r. exact Hfl. }
